@@ -14,9 +14,44 @@ VERIF = os.path.dirname(os.path.dirname(os.path.abspath(__file__)))
 if REPO not in sys.path[:1]:
     sys.path.insert(0, REPO)
 
-# The library logs a warning per failed block; millions of executions would drown in them.
-logging.disable(logging.CRITICAL)
+# The library logs a warning per failed block; millions of executions would drown in them.  But a user may well run
+# with DEBUG logging on, and then every log statement of the library (also those behind `isEnabledFor`) is part of the
+# program: the library's loggers are set to DEBUG and feed a handler that formats every record and drops it.
+
+
+class _FormatAndDrop(logging.Handler):
+    formatted = 0
+
+    def emit(self, record):
+        try:
+            self.format(record)  # lazy %-arguments are interpolated here, as any real handler would
+            _FormatAndDrop.formatted += 1
+        except Exception:
+            pass  # (a record that cannot be formatted is the logging module's business: handleError, no exception)
+
+
+_lg = logging.getLogger("bibtexparser")
+_lg.setLevel(logging.DEBUG)
+_lg.addHandler(_FormatAndDrop())
+_lg.propagate = False
 warnings.simplefilter("ignore")
+
+
+def set_logging(on):
+    """DEBUG logging of the library on (every log statement runs and is formatted) or off (logging disabled: the fast
+    setting).  The engine decides per shard: thorough = on everywhere; quick = on in every fourth shard (costs about 2x
+    where it is on); VERIF_LOGGING=on|off overrides."""
+    logging.disable(logging.NOTSET if on else logging.CRITICAL)
+
+
+def logging_for(tier, shard_index):
+    o = os.environ.get("VERIF_LOGGING", "")
+    if o in ("on", "off"):
+        return o == "on"
+    return tier == "thorough" or shard_index % 4 == 0
+
+
+set_logging(True)
 
 import bibtexparser  # noqa: E402
 
